@@ -1914,7 +1914,9 @@ func c05GeneratedNamesUnique(ctx *Ctx, r *Report) {
 						tested = true
 					}
 				case *ast.CallExpr:
-					if f := callee(info, x); f != nil && (strings.HasPrefix(f.Name(), "Has") || strings.HasPrefix(f.Name(), "Locate")) {
+					// (the visitor's HasNewObject only knows the objects this pass created: it does not say that the schema
+					// holds no object of that name)
+					if f := callee(info, x); f != nil && f.Name() != "HasNewObject" && (strings.HasPrefix(f.Name(), "Has") || strings.HasPrefix(f.Name(), "Locate")) {
 						for _, a := range x.Args {
 							found := false
 							ast.Inspect(a, func(q ast.Node) bool {
